@@ -744,3 +744,38 @@ Section Px2.
     - right. split. exact S. split; reflexivity.
   Qed.
 End Px2.
+
+(* ------------------------------------------------------------------ the two methods meet the Spec *)
+Lemma kernel_disp_in : forall n0 n1 px r c, 0 <= r < n0 -> 0 <= c < n1 -> kernel_disp n0 n1 px r c = fst (px r c).
+Proof. intros. unfold kernel_disp. apply (freeze_in None n0 n1 (fun c r => fst (px c r))); assumption. Qed.
+Lemma kernel_val_in : forall n0 n1 px r c, 0 <= r < n0 -> 0 <= c < n1 -> kernel_val n0 n1 px r c = snd (px r c).
+Proof. intros. unfold kernel_val. apply (freeze_in 0 n0 n1 (fun c r => snd (px c r))); assumption. Qed.
+
+Theorem interp_mc_meets_spec : forall nr nc off disp mask,
+  mc_cnn_spec nr nc off disp mask (fst (interp McCnn nr nc off disp mask)) (snd (interp McCnn nr nc off disp mask)).
+Proof.
+  intros nr nc off disp mask. unfold interp, interp_gen.
+  set (k1 := occ_mc_pixel true nc disp mask).
+  set (d1 := kernel_disp nr nc k1). set (v1 := kernel_val nr nc k1).
+  set (k2 := mis_mc_pixel true nr nc d1 v1).
+  cbn [fst snd]. exists d1, v1, (kernel_val nr nc k2). split; [|split].
+  - intros r c Hr Hc. unfold d1, v1. rewrite kernel_disp_in, kernel_val_in by assumption.
+    apply occ_mc_meets; assumption.
+  - intros r c Hr Hc. rewrite kernel_disp_in, kernel_val_in by assumption.
+    apply mis_mc_meets; assumption.
+  - intros r c Hr Hc. destruct (0 <? off) eqn:Eo; cbn [andb]. 2: reflexivity.
+    apply mask_border_spec; lia.
+Qed.
+
+Theorem interp_sgm_meets_spec : forall nr nc off disp mask, never_both nr nc mask ->
+  sgm_spec nr nc disp mask (fst (interp Sgm nr nc off disp mask)) (snd (interp Sgm nr nc off disp mask)).
+Proof.
+  intros nr nc off disp mask NB. unfold interp, interp_gen.
+  set (k1 := mis_sgm_pixel true nr nc disp mask).
+  set (d1 := kernel_disp nr nc k1). set (v1 := kernel_val nr nc k1).
+  cbn [fst snd]. exists d1, v1. split.
+  - intros r c Hr Hc. unfold d1, v1. rewrite kernel_disp_in, kernel_val_in by assumption.
+    apply mis_sgm_meets; try assumption. apply NB; assumption.
+  - intros r c Hr Hc. rewrite kernel_disp_in, kernel_val_in by assumption.
+    apply occ_sgm_meets; assumption.
+Qed.
